@@ -3,7 +3,7 @@
 From Coq Require Import List NArith ZArith Bool.
 From Coq Require Import String.
 Import ListNotations.
-From GP Require Import Generated Model.Handshake Model.Stderr Model.Env Model.MuxBroker.
+From GP Require Import Generated Model.Handshake Model.Stderr Model.Env Model.MuxBroker Model.GrpcMux.
 
 Definition gen_hs_params : hs_params :=
   {| hp_core := core_protocol_version;
@@ -37,4 +37,15 @@ Definition gen_mux_params : MuxBroker.params :=
        | Some x => sel_default x
        | None => false
        end;
-     run_closes_dropped := mux_run_closes_dropped |}.
+     run_closes_dropped := mux_run_closes_dropped;
+     sender_waits_ack := true; taker_timeout_deletes := true; expiry_drains := true |}.
+
+(* GRPCBroker without multiplexing: Accept sends and returns; Dial's timeout deletes nothing; timeoutWait only deletes *)
+Definition gen_grpc_params : MuxBroker.params :=
+  {| drain_has_default := true; run_closes_dropped := false;
+     sender_waits_ack := false;
+     taker_timeout_deletes := grpc_dial_timeout_deletes;
+     expiry_drains := match sel_lookup select_table "grpc_timeoutwait"%string 1 with Some _ => true | None => false end |}.
+
+Definition gen_cmux_params : GrpcMux.cparams :=
+  {| GrpcMux.registers_first := accept_registers_listener_before_knock_goroutine |}.
